@@ -24,7 +24,10 @@ def run(ctx):
     rcn = ctx.rule('R-CONNECT', 'Connect: registered => released, not registered => Set from the result', minimum=4)
     rcm = ctx.rule('R-COMMIT', 'Promise::Set constructs the Result (may throw) before it gives the handle away', minimum=6)
     rsh = ctx.rule('R-SHAPE', 'SetResultImpl runs the registered callback(s) exactly once and loses none (shape analysis, all list lengths)', minimum=2)
+    rcf = ctx.rule('R-CASFRESH', 'every retry of a compare-exchange re-tests the refreshed expected value against the '
+                   'sentinels the first attempt tested', minimum=2)
     for cfg, fb in sorted(fbs.items()):
+        lib_order.check_cas_fresh(ctx, fb, rcf, lambda f: 'BaseCore' in f.qn)
         lib_shape.check(ctx, fb, rsh, lambda qn: 'SetResultImpl' in qn, 2)
         lib_core.check_commit(ctx, fb, rcm)
         seen = set()
